@@ -141,6 +141,7 @@ theorem flatten_strict (s : Strict t) (hn : t.hierarchy.Nodup) {leaf : Level}
       childExists := fun pl cl hm => by rw [hnp] at hm; cases hm
       hasParent := fun pl cl hm => by rw [hnp] at hm; cases hm
       oneParent := fun pl cl hm => by rw [hnp] at hm; cases hm
+      childNe := fun pl cl hm => by rw [hnp] at hm; cases hm
       childNodup := fun pl cl hm => by rw [hnp] at hm; cases hm
       rowsNodup := by rw [flatten_allRows hn]; exact s.rowsNodup }
   · intro k hk
@@ -657,7 +658,7 @@ theorem drop_pairOK (s : Strict t) (d : DictOK t) (hn : t.hierarchy.Nodup)
     (hi : i < t.hierarchy.length)
     (ht' : t.dropLevelRaw t.hierarchy[i] allowLeaf = .ok t') {pl cl : Level}
     (hm : (pl, cl) ∈ levelPairs t'.hierarchy) :
-    PairOK t' pl cl ∧ ∀ p cs, (p, cs) ∈ t'.level pl → cs.Nodup := by
+    PairOK t' pl cl ∧ ∀ p cs, (p, cs) ∈ t'.level pl → cs.Nodup ∧ cs ≠ [] := by
   rw [drop_hierarchy hn hi ht'] at hm
   have hb : i - 1 < t.hierarchy.length := Nat.lt_of_le_of_lt (Nat.sub_le i 1) hi
   rcases mem_levelPairs_eraseIdx hn hi hm with ⟨hold, hpl, hcl⟩ | ⟨h0, h1, rfl, rfl⟩
@@ -668,7 +669,7 @@ theorem drop_pairOK (s : Strict t) (d : DictOK t) (hn : t.hierarchy.Nodup)
     unfold PairOK
     rw [drop_level_other hn hi ht' hpl hplp, drop_nodesAt hn hi ht' hcl]
     exact ⟨⟨s.childExists pl cl hold, s.hasParent pl cl hold, s.oneParent pl cl hold⟩,
-      s.childNodup pl cl hold⟩
+      fun p cs hp => ⟨s.childNodup pl cl hold p cs hp, s.childNe pl cl hold p cs hp⟩⟩
   · have hPD := mem_levelPairs_pred hi h0
     have hDC := mem_levelPairs_of_idx h1
     have hC : t.hierarchy[i+1] ≠ t.hierarchy[i] := by
@@ -699,8 +700,17 @@ theorem drop_pairOK (s : Strict t) (d : DictOK t) (hn : t.hierarchy.Nodup)
       exact s.oneParent _ _ hPD n₁ cs₁ n₂ cs₂ hcs₁ hcs₂ m₁ hm₁cs hm₂cs
     · intro n cs' hm'
       obtain ⟨cs, hcs, rfl⟩ := mem_reparent.1 hm'
-      exact s.children_nodup h1 (s.childNodup _ _ hPD n cs hcs)
-        (fun m hm'' => s.childExists _ _ hPD n cs hcs m hm'')
+      refine ⟨s.children_nodup h1 (s.childNodup _ _ hPD n cs hcs)
+        (fun m hm'' => s.childExists _ _ hPD n cs hcs m hm''), ?_⟩
+      -- the first child of n has a first child of its own
+      cases hcs' : cs with
+      | nil => exact absurd hcs' (s.childNe _ _ hPD n cs hcs)
+      | cons m ms =>
+        have hmD := s.childExists _ _ hPD n cs hcs m (by rw [hcs']; exact List.mem_cons_self)
+        have hne := s.childNe _ _ hDC m _ (mem_level_entry hmD)
+        intro hnil
+        rw [List.flatMap_cons] at hnil
+        exact hne (List.append_eq_nil_iff.1 hnil).1
 
 theorem drop_strict (s : Strict t) (d : DictOK t) (hn : t.hierarchy.Nodup)
     (hi : i < t.hierarchy.length)
@@ -714,7 +724,8 @@ theorem drop_strict (s : Strict t) (d : DictOK t) (hn : t.hierarchy.Nodup)
       childExists := fun pl cl hm => (drop_pairOK s d hn hi ht' hm).1.1
       hasParent := fun pl cl hm => (drop_pairOK s d hn hi ht' hm).1.2.1
       oneParent := fun pl cl hm => (drop_pairOK s d hn hi ht' hm).1.2.2
-      childNodup := fun pl cl hm => (drop_pairOK s d hn hi ht' hm).2
+      childNe := fun pl cl hm p cs hp => ((drop_pairOK s d hn hi ht' hm).2 p cs hp).2
+      childNodup := fun pl cl hm p cs hp => ((drop_pairOK s d hn hi ht' hm).2 p cs hp).1
       rowsNodup := (drop_allRows_perm s d hn hi ht').symm.nodup s.rowsNodup }
   · intro k hk
     rw [drop_keys hn hi ht', List.mem_filter] at hk
